@@ -343,6 +343,44 @@ pub fn scheme_matrix(out: &mut Vec<String>) {
     }
 }
 
+/// Foreign content: html5ever puts `xlink:href`, `xml:lang`, `xmlns`, `xmlns:xlink` of elements
+/// inside `<svg>`/`<math>` into a namespace (the serializer writes the prefix back); elements
+/// that "break out" of foreign content (`img`, `span`, `div`, `font color=…`) are HTML elements
+/// again, and the same spellings are then plain HTML attributes with a colon in their name.
+pub fn foreign_docs(rng: &mut Rng, out: &mut Vec<String>) {
+    const NS_ATTRS: &[&str] = &["xlink:href", "xml:lang", "xmlns:xlink", "xmlns", "xlink:title", "xml:space", "xlink:show"];
+    for wrap in ["svg", "math", "svg><g", "math><mi", "svg><foreignObject", "svg><desc", "math><annotation-xml encoding=\"text/html\""] {
+        for el in ["a", "img", "span", "code", "div", "ol", "font", "b", "circle", "mtext", "x-foo", "mx-reply"] {
+            for k in 0..4 {
+                let mut s = format!("<{wrap}><{el}");
+                let mut attrs: Vec<&str> = Vec::new();
+                attrs.push(NS_ATTRS[(k + rng.below(NS_ATTRS.len())) % NS_ATTRS.len()]);
+                if k >= 1 {
+                    attrs.push(pick(rng, attr_pool(el)));
+                }
+                if k >= 2 {
+                    attrs.push(pick(rng, NS_ATTRS));
+                    attrs.push(pick(rng, &["href", "src", "title", "lang", "class"]));
+                }
+                rng.shuffle(&mut attrs);
+                for a in attrs {
+                    let v = if a.ends_with("href") || a == "src" { uri_value(rng) } else { attr_value(rng, a) };
+                    write_attr(rng, &mut s, a, &v);
+                }
+                s.push('>');
+                s.push_str(pick(rng, TEXTS));
+                if rng.chance(2, 3) {
+                    s.push_str(&format!("</{el}>"));
+                }
+                if rng.chance(1, 2) {
+                    s.push_str("<b>x</b>");
+                }
+                out.push(s);
+            }
+        }
+    }
+}
+
 // ------------------------------------------------------------------ allow-list grammar (C15)
 
 /// A well-nested document using only allowed elements, attributes, schemes and classes, in the
